@@ -180,6 +180,19 @@ Qed.
 
 End FrameUser.
 
+(* ================= the spliced texts ================= *)
+(* ':' y '@' behind the username *)
+Definition splice_password (u : url) (y : list N) : list N :=
+  nfirstn (username_end u) (ser u) ++ 58 :: y ++ 64 :: nskipn (host_start u) (ser u).
+(* x in the username position; behind it the old ":password@" if there is one, otherwise '@' unless x is empty *)
+Definition splice_username (u : url) (x : list N) : list N :=
+  nfirstn (scheme_end u + 3) (ser u) ++ x
+  ++ (if byte_eqb (ser u) (username_end u) 58 then nskipn (username_end u) (ser u)
+      else match x with [] => [] | _ => [64] end ++ nskipn (host_start u) (ser u)).
+
+(* is the scheme of the record special? *)
+Definition sp_of (u : url) : bool := st_is_special (scheme_type_of (nfirstn (scheme_end u) (ser u))).
+
 (* ================= the canonical records with an authority ================= *)
 Section CredAuth.
 Variable dbg : bool.
@@ -297,6 +310,268 @@ Proof.
         rec_eq.
     + cbn [app]. rewrite un_pick_58. rewrite !adjust_ge by (clear; llia). cbn [bindo]. rewrite adjust_qs', adjust_fs' by (clear; llia). cbn [bindo].
       rec_eq.
+Qed.
+
+(* ---------- the parser on the spliced texts ---------- *)
+Definition auth_rest (h : host) (pt : option N) (p : pth) (q f : option (list N)) : list N :=
+  hd h ++ port_text pt ++ pth_text p ++ qf_text q f.
+
+Lemma auth_ser_rest sch ui h pt p q f : auth_ser sch ui h pt p q f = (sch ++ s_css) ++ ui_text ui ++ auth_rest h pt p q f.
+Proof. unfold C02_Auth.auth_ser, C02_Auth.auth_pre, C02_Auth.auth_front, auth_rest, s_css. rewrite <- !app_assoc. reflexivity. Qed.
+
+Lemma rest_above st sch ui h pt p q f : auth_ok st sch ui h pt p q f -> forallb above_space (auth_rest h pt p q f) = true.
+Proof.
+  intros K. pose proof (auth_ser_okc hp hpo hd HRT _ _ _ _ _ _ _ _ K) as H. rewrite auth_ser_rest in H.
+  rewrite !forallb_app in H. apply andb_true_iff in H. destruct H as [_ H]. apply andb_true_iff in H. destruct H as [_ H].
+  apply okc_above. exact H.
+Qed.
+
+Lemma rest_not_nil st h pt p q f : host_ok st h -> h <> HDomain [] -> auth_rest h pt p q f <> [].
+Proof.
+  intros Kh Hne. destruct (hd_head st h Kh Hne) as (c & r & E & _). unfold auth_rest. rewrite E. discriminate.
+Qed.
+
+(* the last three states on the canonical rest of the record *)
+Lemma rest_states st sch ui h pt p q f : auth_ok st sch ui h pt p q f -> auth_cls st p ->
+  (forall count last, scan_last_at (st_is_special st) (auth_rest h pt p q f) count last = last)
+  /\ parse_host_and_port hp hpo hd CUrlParser st (nlen sch) (((sch ++ [58]) ++ [47; 47]) ++ ui_text ui) (auth_rest h pt p q f)
+     = POk (auth_front sch ui h pt, nlen (((sch ++ [58]) ++ [47; 47]) ++ ui_text ui) + nlen (hd h), hi_of_host h, pt,
+            pth_text p ++ qf_text q f)
+  /\ parse_path_start dbg CUrlParser st true (auth_front sch ui h pt) (pth_text p ++ qf_text q f)
+     = POk (C02_Auth.auth_pre hd sch ui h pt p, true, qf_text q f)
+  /\ parse_query_and_fragment None CUrlParser st (nlen sch) (C02_Auth.auth_pre hd sch ui h pt p) (qf_text q f)
+     = POk (auth_ser sch ui h pt p q f, qf_qs (nlen (C02_Auth.auth_pre hd sch ui h pt p)) q,
+            qf_fs (nlen (C02_Auth.auth_pre hd sch ui h pt p)) q f).
+Proof.
+  intros K Hc. pose proof (auth_cls_nf st p Hc) as Hnf. destruct K as [Ksch Kst Kui Kh Kemp Kpt Kp Kq Kf Kb Kbq Kbf].
+  assert (tail_ok (pth_text p ++ qf_text q f)) as Htail by (apply pth_tail; apply qf_qh_ok).
+  split; [|split; [|split]].
+  - apply (auth_scan hp hpo hd HRT st h pt _ Kh (fun E => proj2 (Kemp E)) (port_ok_le _ _ Kpt) Htail).
+  - apply (phap_canon hp hpo hd HRT); try assumption. exact (fun E => proj2 (Kemp E)).
+  - apply (pps_cls dbg hp hpo hd); [exact Kh | exact Hc | apply qf_qh_ok].
+  - apply pqf_canon; [reflexivity | exact Kq | exact Kf | exact Kbq | exact Kbf].
+Qed.
+
+Lemma cr_slices A U TL R se dhe dps hi pt q f :
+  nfirstn (nlen (A ++ U)) (ser (cr_url A U TL R se dhe dps hi pt q f)) = A ++ U
+  /\ nskipn (nlen (A ++ U)) (ser (cr_url A U TL R se dhe dps hi pt q f)) = TL ++ R ++ qf_text q f
+  /\ nskipn (nlen ((A ++ U) ++ TL)) (ser (cr_url A U TL R se dhe dps hi pt q f)) = R ++ qf_text q f
+  /\ nfirstn (nlen A) (ser (cr_url A U TL R se dhe dps hi pt q f)) = A
+  /\ byte_eqb (ser (cr_url A U TL R se dhe dps hi pt q f)) (nlen (A ++ U)) 58 = head_is (TL ++ R ++ qf_text q f) 58.
+Proof.
+  rewrite cr_ser. split; [|split; [|split; [|split]]].
+  - rewrite <- (app_assoc (A ++ U)). apply nfirstn_app_len.
+  - rewrite <- (app_assoc (A ++ U)). apply nskipn_app_len.
+  - apply nskipn_app_len.
+  - rewrite <- (app_assoc (A ++ U)), <- (app_assoc A). apply nfirstn_app_len.
+  - rewrite <- (app_assoc (A ++ U)). apply byte_eqb_head. reflexivity.
+Qed.
+
+(* WHOLE-URL agreement for set_password (non-empty argument free of TAB/LF/CR, '@' and the authority delimiters) *)
+Theorem splice_password_auth_parse st sch ui h pt p q f y u' : auth_ok st sch ui h pt p q f -> auth_cls st p ->
+  usv_list y -> y <> [] -> forallb (plainc (st_is_special st)) y = true ->
+  set_password dbg (auth_url sch ui h pt p q f) (Some y) = Some (u', SOk) -> h <> HDomain [] -> nlen (ser u') <= U32_MAX_P ->
+  parse_url dbg hp hpo hd None None (splice_password (auth_url sch ui h pt p q f) y) = POk u'.
+Proof.
+  intros K Hc Hy Hyn Hpl E Hne Hb. pose proof (auth_cls_nf st p Hc) as Hnf.
+  rewrite (set_password_auth st sch ui h pt p q f y K Hnf Hne Hy Hyn) in E. inversion E; subst u'. clear E.
+  cbn [ser C02_Auth.auth_url] in Hb.
+  pose proof (ak_ui _ _ _ _ _ _ _ _ _ _ _ K) as Kui. pose proof (ui_user_clean ui Kui) as Hcl.
+  assert (ui_ok (UPw (ui_user ui) (uenc y))) as Kui'.
+  { split; [exact Hcl|]. split; [apply uenc_clean; exact Hy|]. intros E0. apply uenc_nil_inv in E0. contradiction. }
+  pose proof (auth_ok_ui st sch ui h pt p q f _ K Hne Kui' Hb) as K'.
+  destruct (rest_states st sch (UPw (ui_user ui) (uenc y)) h pt p q f K' Hc) as (S1 & S2 & S3 & S4).
+  pose proof (rest_above _ _ _ _ _ _ _ _ K) as Hab. pose proof (rest_not_nil st h pt p q f (ak_h _ _ _ _ _ _ _ _ _ _ _ K) Hne) as Hrn.
+  assert (splice_password (auth_url sch ui h pt p q f) y
+          = sch ++ 58 :: 47 :: 47 :: (ui_user ui ++ 58 :: y ++ 64 :: auth_rest h pt p q f)) as ->.
+  { unfold splice_password. rewrite auth_url_cr.
+    change (username_end (cr_url (sch ++ s_css) (ui_user ui) (ui_tail ui) (hd h ++ port_text pt ++ pth_text p) (nlen sch) (nlen (hd h))
+              (nlen (hd h ++ port_text pt)) (hi_of_host h) pt q f)) with (nlen ((sch ++ s_css) ++ ui_user ui)).
+    change (host_start (cr_url (sch ++ s_css) (ui_user ui) (ui_tail ui) (hd h ++ port_text pt ++ pth_text p) (nlen sch) (nlen (hd h))
+              (nlen (hd h ++ port_text pt)) (hi_of_host h) pt q f)) with (nlen (((sch ++ s_css) ++ ui_user ui) ++ ui_tail ui)).
+    destruct (cr_slices (sch ++ s_css) (ui_user ui) (ui_tail ui) (hd h ++ port_text pt ++ pth_text p) (nlen sch) (nlen (hd h))
+              (nlen (hd h ++ port_text pt)) (hi_of_host h) pt q f) as (C1 & _ & C3 & _). rewrite C1, C3.
+    unfold auth_rest, s_css. rewrite <- !app_assoc. reflexivity. }
+  pose proof (ak_b _ _ _ _ _ _ _ _ _ _ _ K') as Kb'. pose proof (front_len hd sch (UPw (ui_user ui) (uenc y)) h pt) as FL.
+  apply (auth_parse dbg hp hpo hd st sch (UPw (ui_user ui) (uenc y)) h pt p q f _ (auth_rest h pt p q f) (pth_text p ++ qf_text q f) (qf_text q f) true K').
+  - destruct Hc as [[-> _]|[-> _]]; [left; reflexivity | right; split; [reflexivity|]].
+    destruct (ui_user ui) as [|c r] eqn:EU; [cbn [app]; split; reflexivity|]. cbn [app]. apply plain_not_slash.
+    pose proof (clean_ui_plain true _ Hcl) as Hp. cbn [forallb] in Hp. apply andb_true_iff in Hp. tauto.
+  - intros E0. apply (f_equal (@length N)) in E0. rewrite !app_length in E0. cbn [length] in E0. lia.
+  - replace (ui_user ui ++ 58 :: y ++ 64 :: auth_rest h pt p q f) with ((ui_user ui ++ 58 :: y ++ [64]) ++ auth_rest h pt p q f)
+      by (rewrite <- !app_assoc; cbn [app]; rewrite <- !app_assoc; reflexivity). apply first_ok_rev_app; [exact Hrn | apply forallb_above; exact Hab].
+  - cbn [ui_text ui_ulen]. rewrite <- !app_assoc.
+    rewrite (parse_userinfo_raw_pw st _ (ui_user ui) y (auth_rest h pt p q f) Hy Hcl Hpl Hyn S1) by (clear - Kb' FL; cbn [ui_text] in FL; llia).
+    rewrite <- !app_assoc. reflexivity.
+  - exact S2.
+  - exact S3.
+  - exact S4.
+Qed.
+
+(* ---------- set_username ---------- *)
+Lemma rest_first_ok st sch ui h pt p q f Y : auth_ok st sch ui h pt p q f -> h <> HDomain [] ->
+  first_ok (rev (Y ++ auth_rest h pt p q f)).
+Proof.
+  intros K Hne. apply first_ok_rev_app; [exact (rest_not_nil st h pt p q f (ak_h _ _ _ _ _ _ _ _ _ _ _ K) Hne)|].
+  apply forallb_above. exact (rest_above _ _ _ _ _ _ _ _ K).
+Qed.
+
+(* a raw username x, an optional canonical password, '@' *)
+Lemma user_parse st sch ui' h pt p q f x pw : auth_ok st sch ui' h pt p q f -> auth_cls st p -> h <> HDomain [] ->
+  ui_text ui' = uenc x ++ pw_text pw ++ [64] -> ui_ulen ui' = nlen (uenc x) ->
+  usv_list x -> forallb (fun c => plainc (st_is_special st) c && negb (c =? 58)) x = true ->
+  match pw with Some p0 => clean T_USERINFO p0 = true /\ p0 <> [] | None => x <> [] end ->
+  parse_url dbg hp hpo hd None None (sch ++ 58 :: 47 :: 47 :: x ++ pw_text pw ++ 64 :: auth_rest h pt p q f)
+  = POk (auth_url sch ui' h pt p q f).
+Proof.
+  intros K' Hc Hne Et El Hx Hpl Hpw.
+  destruct (rest_states st sch ui' h pt p q f K' Hc) as (S1 & S2 & S3 & S4).
+  pose proof (ak_b _ _ _ _ _ _ _ _ _ _ _ K') as Kb'. pose proof (front_len hd sch ui' h pt) as FL. pose proof (ui_ulen_le ui') as UL.
+  apply (auth_parse dbg hp hpo hd st sch ui' h pt p q f _ (auth_rest h pt p q f) (pth_text p ++ qf_text q f) (qf_text q f) true K').
+  - destruct Hc as [[-> _]|[-> _]]; [left; reflexivity | right; split; [reflexivity|]].
+    destruct x as [|c r]; cbn [app].
+    + destruct pw as [p0|]; [cbn [pw_text app]; split; reflexivity | contradiction].
+    + apply plain_not_slash. cbn [forallb st_is_special] in Hpl. apply andb_true_iff in Hpl. destruct Hpl as [Hpl _].
+      apply andb_true_iff in Hpl. tauto.
+  - intros E0. apply (f_equal (@length N)) in E0. rewrite !app_length in E0. cbn [length] in E0. lia.
+  - replace (x ++ pw_text pw ++ 64 :: auth_rest h pt p q f) with ((x ++ pw_text pw ++ [64]) ++ auth_rest h pt p q f)
+      by (rewrite <- !app_assoc; cbn [app]; reflexivity).
+    exact (rest_first_ok st sch ui' h pt p q f _ K' Hne).
+  - rewrite (parse_userinfo_raw_user st _ x pw (auth_rest h pt p q f) Hx Hpl Hpw S1) by (clear - Kb' FL UL El; llia).
+    rewrite Et, El. reflexivity.
+  - exact S2.
+  - exact S3.
+  - exact S4.
+Qed.
+
+(* no userinfo at all *)
+Lemma nouser_parse st sch h pt p q f : auth_ok st sch UNone h pt p q f -> auth_cls st p -> h <> HDomain [] ->
+  parse_url dbg hp hpo hd None None (sch ++ 58 :: 47 :: 47 :: auth_rest h pt p q f) = POk (auth_url sch UNone h pt p q f).
+Proof.
+  intros K' Hc Hne.
+  destruct (rest_states st sch UNone h pt p q f K' Hc) as (S1 & S2 & S3 & S4).
+  pose proof (ak_b _ _ _ _ _ _ _ _ _ _ _ K') as Kb'. pose proof (front_len hd sch UNone h pt) as FL.
+  apply (auth_parse dbg hp hpo hd st sch UNone h pt p q f _ (auth_rest h pt p q f) (pth_text p ++ qf_text q f) (qf_text q f) true K').
+  - destruct Hc as [[-> _]|[-> _]]; [left; reflexivity | right; split; [reflexivity|]].
+    exact (rest_head hp hpo hd UNone h _ I (ak_h _ _ _ _ _ _ _ _ _ _ _ K')).
+  - exact (rest_not_nil st h pt p q f (ak_h _ _ _ _ _ _ _ _ _ _ _ K') Hne).
+  - exact (rest_first_ok st sch UNone h pt p q f [] K' Hne).
+  - apply (parse_userinfo_canon st _ UNone); [exact I | exact S1 | clear - Kb' FL; cbn [ui_ulen]; llia].
+  - exact S2.
+  - exact S3.
+  - exact S4.
+Qed.
+
+(* WHOLE-URL agreement for set_username (argument free of TAB/LF/CR, ':', '@' and the authority delimiters) *)
+Theorem splice_username_auth_parse st sch ui h pt p q f x u' : auth_ok st sch ui h pt p q f -> auth_cls st p ->
+  usv_list x -> forallb (fun c => plainc (st_is_special st) c && negb (c =? 58)) x = true ->
+  set_username dbg (auth_url sch ui h pt p q f) x = Some (u', SOk) -> h <> HDomain [] -> nlen (ser u') <= U32_MAX_P ->
+  parse_url dbg hp hpo hd None None (splice_username (auth_url sch ui h pt p q f) x) = POk u'.
+Proof.
+  intros K Hc Hx Hpl E Hne Hb. pose proof (auth_cls_nf st p Hc) as Hnf.
+  rewrite (set_username_auth st sch ui h pt p q f x K Hnf Hne Hx) in E. inversion E; subst u'. clear E.
+  cbn [ser C02_Auth.auth_url] in Hb.
+  pose proof (ak_ui _ _ _ _ _ _ _ _ _ _ _ K) as Kui.
+  pose proof (ui_set_user_ok ui (uenc x) Kui (uenc_clean x Hx)) as Kui'.
+  pose proof (auth_ok_ui st sch ui h pt p q f _ K Hne Kui' Hb) as K'.
+  destruct (hd_head st h (ak_h _ _ _ _ _ _ _ _ _ _ _ K) Hne) as (c0 & r0 & Ehd & Hc58 & Hc64).
+  unfold splice_username. rewrite auth_url_cr.
+  change (scheme_end (cr_url (sch ++ s_css) (ui_user ui) (ui_tail ui) (hd h ++ port_text pt ++ pth_text p) (nlen sch) (nlen (hd h))
+            (nlen (hd h ++ port_text pt)) (hi_of_host h) pt q f)) with (nlen sch).
+  change (username_end (cr_url (sch ++ s_css) (ui_user ui) (ui_tail ui) (hd h ++ port_text pt ++ pth_text p) (nlen sch) (nlen (hd h))
+            (nlen (hd h ++ port_text pt)) (hi_of_host h) pt q f)) with (nlen ((sch ++ s_css) ++ ui_user ui)).
+  change (host_start (cr_url (sch ++ s_css) (ui_user ui) (ui_tail ui) (hd h ++ port_text pt ++ pth_text p) (nlen sch) (nlen (hd h))
+            (nlen (hd h ++ port_text pt)) (hi_of_host h) pt q f)) with (nlen (((sch ++ s_css) ++ ui_user ui) ++ ui_tail ui)).
+  replace (nlen sch + 3) with (nlen (sch ++ s_css)) by (clear; unfold s_css; llia).
+  destruct (cr_slices (sch ++ s_css) (ui_user ui) (ui_tail ui) (hd h ++ port_text pt ++ pth_text p) (nlen sch) (nlen (hd h))
+            (nlen (hd h ++ port_text pt)) (hi_of_host h) pt q f) as (_ & C2 & C3 & C4 & C5). rewrite C2, C3, C4, C5.
+  assert ((hd h ++ port_text pt ++ pth_text p) ++ qf_text q f = auth_rest h pt p q f) as ER by (unfold auth_rest; rewrite <- !app_assoc; reflexivity).
+  rewrite ER.
+  destruct ui as [|u|u p0]; cbn [ui_tail ui_set_user app head_is] in *.
+  - (* no credentials before *)
+    assert (head_is (auth_rest h pt p q f) 58 = false) as -> by (unfold auth_rest; rewrite Ehd; cbn [app head_is]; lia).
+    destruct x as [|c r].
+    + change (uenc []) with (@nil N) in *. cbn [app]. unfold s_css. rewrite <- app_assoc. cbn [app].
+      exact (nouser_parse st sch h pt p q f K' Hc Hne).
+    + destruct (uenc (c :: r)) as [|e E'] eqn:EE; [apply uenc_nil_inv in EE; discriminate|]. rewrite <- EE in *.
+      unfold s_css. rewrite <- !app_assoc. cbn [app].
+      apply (user_parse st sch (UUser (uenc (c :: r))) h pt p q f (c :: r) None K' Hc Hne);
+        [cbn [ui_text pw_text app]; reflexivity | reflexivity | exact Hx | exact Hpl | discriminate].
+  - replace (64 =? 58) with false by reflexivity.
+    destruct x as [|c r].
+    + change (uenc []) with (@nil N) in *. cbn [app]. unfold s_css. rewrite <- app_assoc. cbn [app].
+      exact (nouser_parse st sch h pt p q f K' Hc Hne).
+    + destruct (uenc (c :: r)) as [|e E'] eqn:EE; [apply uenc_nil_inv in EE; discriminate|]. rewrite <- EE in *.
+      unfold s_css. rewrite <- !app_assoc. cbn [app].
+      apply (user_parse st sch (UUser (uenc (c :: r))) h pt p q f (c :: r) None K' Hc Hne);
+        [cbn [ui_text pw_text app]; reflexivity | reflexivity | exact Hx | exact Hpl | discriminate].
+  - replace (58 =? 58) with true by reflexivity. destruct Kui as (_ & Hp0 & Hp0n).
+    replace ((sch ++ s_css) ++ x ++ 58 :: (p0 ++ [64]) ++ auth_rest h pt p q f)
+      with (sch ++ 58 :: 47 :: 47 :: x ++ pw_text (Some p0) ++ 64 :: auth_rest h pt p q f)
+      by (unfold s_css; cbn [pw_text]; rewrite <- ?app_assoc; cbn [app]; rewrite <- ?app_assoc; reflexivity).
+    apply (user_parse st sch (UPw (uenc x) p0) h pt p q f x (Some p0) K' Hc Hne);
+      [cbn [ui_text pw_text app]; rewrite <- ?app_assoc; reflexivity | reflexivity | exact Hx | exact Hpl | split; assumption].
+Qed.
+
+(* ---------- every canonical record ---------- *)
+Lemma sp_of_auth st sch ui h pt p q f : auth_ok st sch ui h pt p q f -> sp_of (auth_url sch ui h pt p q f) = st_is_special st.
+Proof.
+  intros K. unfold sp_of. cbn [scheme_end ser C02_Auth.auth_url]. unfold C02_Auth.auth_ser, C02_Auth.auth_pre.
+  rewrite <- app_assoc. rewrite (front_sch hd). rewrite (ak_st _ _ _ _ _ _ _ _ _ _ _ K). reflexivity.
+Qed.
+
+Lemma cred_ok_host st sch ui h pt p q f : auth_ok st sch ui h pt p q f -> st_is_file st = false ->
+  cannot_have_credentials_or_port (auth_url sch ui h pt p q f) = Some false -> h <> HDomain [].
+Proof.
+  intros K Hnf Hc E. subst h. rewrite (auth_cannot_port hp hpo hd st sch ui _ pt p q f K Hnf) in Hc. discriminate Hc.
+Qed.
+
+Lemma cred_cases st sch ui h pt p q f : auth_ok st sch ui h pt p q f -> st_is_file st = false ->
+  (h = HDomain [] /\ cannot_have_credentials_or_port (auth_url sch ui h pt p q f) = Some true)
+  \/ (h <> HDomain [] /\ cannot_have_credentials_or_port (auth_url sch ui h pt p q f) = Some false).
+Proof.
+  intros K Hnf. rewrite (auth_cannot_port hp hpo hd st sch ui h pt p q f K Hnf).
+  destruct h as [[|d0 d]|a|pcs]; [left; split; reflexivity | right | right | right]; split; try reflexivity; discriminate.
+Qed.
+
+Theorem splice_agreement_set_password u y u' : Canon hp hpo hd u -> usv_list y -> y <> [] ->
+  forallb (plainc (sp_of u)) y = true ->
+  set_password dbg u (Some y) = Some (u', SOk) -> nlen (ser u') <= U32_MAX_P ->
+  parse_url dbg hp hpo hd None None (splice_password u y) = POk u'.
+Proof.
+  intros C Hy Hyn. destruct C as [sch P q f K | sch segs last q f K | sch ui h pt p q f K | sch ui h pt p q f K Kp].
+  - intros _. unfold set_password, cannot_have_credentials_or_port, has_host. cbn [opaque_url hosti negb bindo]. discriminate.
+  - intros _. unfold set_password, cannot_have_credentials_or_port, has_host. cbn [noauth_url hosti negb bindo]. discriminate.
+  - rewrite (sp_of_auth _ _ _ _ _ _ _ _ K). intros Hpl E Hb.
+    destruct (cred_cases _ _ _ _ _ _ _ _ K eq_refl) as [[_ Hc]|[Hne _]].
+    { unfold set_password in E. rewrite Hc in E. discriminate E. }
+    apply (splice_password_auth_parse STNotSpecial sch ui h pt p q f y u' K); try assumption.
+    left. split; [reflexivity | exact (ak_p _ _ _ _ _ _ _ _ _ _ _ K)].
+  - rewrite (sp_of_auth _ _ _ _ _ _ _ _ K). intros Hpl E Hb.
+    destruct (cred_cases _ _ _ _ _ _ _ _ K eq_refl) as [[_ Hc]|[Hne _]].
+    { unfold set_password in E. rewrite Hc in E. discriminate E. }
+    apply (splice_password_auth_parse STSpecialNotFile sch ui h pt p q f y u' K); try assumption.
+    right. split; [reflexivity | exact Kp].
+Qed.
+
+Theorem splice_agreement_set_username u x u' : Canon hp hpo hd u -> usv_list x ->
+  forallb (fun c => plainc (sp_of u) c && negb (c =? 58)) x = true ->
+  set_username dbg u x = Some (u', SOk) -> nlen (ser u') <= U32_MAX_P ->
+  parse_url dbg hp hpo hd None None (splice_username u x) = POk u'.
+Proof.
+  intros C Hx. destruct C as [sch P q f K | sch segs last q f K | sch ui h pt p q f K | sch ui h pt p q f K Kp].
+  - intros _. unfold set_username, cannot_have_credentials_or_port, has_host. cbn [opaque_url hosti negb bindo]. discriminate.
+  - intros _. unfold set_username, cannot_have_credentials_or_port, has_host. cbn [noauth_url hosti negb bindo]. discriminate.
+  - rewrite (sp_of_auth _ _ _ _ _ _ _ _ K). intros Hpl E Hb.
+    destruct (cred_cases _ _ _ _ _ _ _ _ K eq_refl) as [[_ Hc]|[Hne _]].
+    { unfold set_username in E. rewrite Hc in E. discriminate E. }
+    apply (splice_username_auth_parse STNotSpecial sch ui h pt p q f x u' K); try assumption.
+    left. split; [reflexivity | exact (ak_p _ _ _ _ _ _ _ _ _ _ _ K)].
+  - rewrite (sp_of_auth _ _ _ _ _ _ _ _ K). intros Hpl E Hb.
+    destruct (cred_cases _ _ _ _ _ _ _ _ K eq_refl) as [[_ Hc]|[Hne _]].
+    { unfold set_username in E. rewrite Hc in E. discriminate E. }
+    apply (splice_username_auth_parse STSpecialNotFile sch ui h pt p q f x u' K); try assumption.
+    right. split; [reflexivity | exact Kp].
 Qed.
 
 End CredAuth.
